@@ -46,4 +46,4 @@ def run(rep, tier, replay):
         extra["mt_sessions"] = mt_leg(rep, tier)
     return c03.run_family(rep, tier, replay, "C11", mix="life", probes=["text", "tasks"], extra_cov=extra,
                           quick=dict(maxcmd=10, maxbps=2, ncands=3, nhist=8, maxbk=3, lifecycle=True, attach=True),
-                          thorough=dict(maxcmd=14, maxbps=3, ncands=5, nhist=40, maxbk=4, lifecycle=True, attach=True))
+                          thorough=dict(maxcmd=14, maxbps=3, ncands=5, nhist=40, maxbk=4, lifecycle=True, attach=True, nopie=True))
